@@ -11,6 +11,20 @@ from ..index import AnalysisError, walk_no_nested
 from ..normalform import NFUnsupported, Normalizer, equal
 from ..selftest import V
 
+KNOWN_LME_HELPERS = {"_remove_nans", "_generic_get_random_effects", "_get_individual_random_effects_and_residuals", "_get_reformated", "_get_reformated_subjects"}
+
+
+def _delegates_to_unknown_helper(f):
+    """names of private helpers (not among the confirmed ones) the function hands part of its computation to: a form that is not found in
+    the function may well stand in such a helper - not decided, rather than reported as gone"""
+    out = []
+    for c in ast.walk(f.node):
+        if isinstance(c, ast.Call) and isinstance(c.func, ast.Attribute) and isinstance(c.func.value, ast.Name) and c.func.value.id in ("self", "cls") \
+                and c.func.attr.startswith("_") and not c.func.attr.startswith("__") and c.func.attr not in KNOWN_LME_HELPERS:
+            out.append(c.func.attr)
+    return out
+
+
 PROP = "C20"
 LEVEL_TEXT = (
     "Static check of the two benchmark models: (R1) constant model - every PredictionType member is handled by _get_feature_values (exhaustiveness over the enum), "
@@ -153,7 +167,10 @@ def r2_lme(ctx):
     bp = unify(pl, ["?res = $3 - " + X_ + " @ $1.parameters['fe_params']"])
     bt = unify(tl, ["return torch.tensor(" + X_ + " @ ($0.parameters['fe_params'] + ?re), dtype=torch.float32).reshape((1, -1, 1))"])
     ctx.check(bp is not None, "C20.R2", readers[0], readers[0].node, "residuals = y - [1, age_norm] fe", "residuals are no longer y - X fe with X = [1, age_norm]", construct="residuals")
-    ctx.check(bt is not None, "C20.R2", readers[1], readers[1].node, "trajectory = [1, age_norm] (fe + re): a straight line in age", "the LME trajectory is no longer X (fe + re)")
+    if bt is None and _delegates_to_unknown_helper(readers[1]):
+        ctx.unknown("C20.R2", readers[1], readers[1].node, f"the trajectory hands part of its computation to {_delegates_to_unknown_helper(readers[1])}: the form X (fe + re) is not found in the function itself")
+    else:
+        ctx.check(bt is not None, "C20.R2", readers[1], readers[1].node, "trajectory = [1, age_norm] (fe + re): a straight line in age", "the LME trajectory is no longer X (fe + re)")
 
     def key(txt):
         return U(parse_canon(txt))
@@ -180,7 +197,10 @@ def r2_lme(ctx):
     site_lines = {id(fit): fl, id(readers[0]): pl, id(readers[1]): tl}
     for f, bnd, env in sites:
         if not bnd:
-            ctx.violation("C20.R2", f, f.node, "ages are no longer normalised before the design matrix [1, age] is built", construct=f"age normalisation in {f.name}")
+            if _delegates_to_unknown_helper(f):
+                ctx.unknown("C20.R2", f, f.node, f"the design matrix is built in a helper ({_delegates_to_unknown_helper(f)}): the age normalisation is not found in the function itself", construct=f"age normalisation in {f.name}")
+            else:
+                ctx.violation("C20.R2", f, f.node, "ages are no longer normalised before the design matrix [1, age] is built", construct=f"age normalisation in {f.name}")
             continue
         bnd = dict(bnd)
         bnd["an"] = fold_local(site_lines[id(f)], bnd["an"])
@@ -300,7 +320,10 @@ def r2_lme(ctx):
                 arms[ct_.text(st_.value, False, ct_.last_order)] = gs_
         ok = arms == {"np.array([$2['random_intercept'].item(), 0])": [("$0.with_random_slope_age", False)],
                       "np.array([$2['random_intercept'].item(), $2['random_slope_age'].item()])": [("$0.with_random_slope_age", True)]}
-    ctx.check(ok, "C20.R2", t, t.node, "random slope forced to 0 when the model has none", "the random slope is not forced to 0 for an intercept-only model", construct="no-slope case")
+    if not ok and bt is None and _delegates_to_unknown_helper(t):
+        ctx.unknown("C20.R2", t, t.node, "the trajectory form was not found (helper): the no-slope case cannot be located", construct="no-slope case")
+    else:
+        ctx.check(ok, "C20.R2", t, t.node, "random slope forced to 0 when the model has none", "the random slope is not forced to 0 for an intercept-only model", construct="no-slope case")
     ok = bf is not None and "if $1.with_random_slope_age" in fl
     ctx.check(ok, "C20.R2", fit, fit.node, "random-effects design = X with a random slope, intercept only otherwise", "the random-effects design of the fit changed", construct="random-effects design")
 
@@ -329,6 +352,11 @@ def rules(ctx):
     # rounded to single precision, a nearly singular C gives other random effects than the conditional means (same rule as C12.R9)
     from .c12 import r9_stateless_parameters_not_narrowed
     r9_stateless_parameters_not_narrowed(ctx, rid="C20.R5")
+    # ... and computed from the *current* parameters: nothing in the benchmark models is memoised across calls (a design matrix cached per ages
+    # keeps the age normalisation of the previous fit) - same rule as C13.R5
+    from .c13 import r5_shared_defaults
+    r5_shared_defaults(ctx, rid="C20.R6", scope="leaspy.models.lme", title="no memoised method / shared container in the LME model (its lines use the normalisation of the current fit)")
+    r5_shared_defaults(ctx, rid="C20.R6b", scope="leaspy.models.constant", title="no memoised method / shared container in the constant model")
     ctx.trust("numpy nanmax / nanmean / argmax / fancy indexing semantics; statsmodels MixedLM results (fe_params, cov_re_unscaled)")
 
 
